@@ -208,6 +208,12 @@ def run(ctx):
     tainted = taint_attrs(prog)
     ctx.extra["tainted_attributes"] = sorted(tainted)
     n_checked = 0
+    # property names all of whose in-package definitions consume randomness (vectorised_likelihood, ...)
+    by_name = {}
+    for f_ in prog.all_functions:
+        if f_.is_property and not f_.is_setter and f_.cls is not None:
+            by_name.setdefault(f_.name, []).append(f_)
+    rng_props = {n_: fs_[0].short for n_, fs_ in by_name.items() if all(x_.qual in rngfns for x_ in fs_)}
     for f in prog.all_functions:
         if f.parent is not None:
             continue
@@ -233,6 +239,9 @@ def run(ctx):
                             mth = prog.find_method(c, e.attr)
                             if mth is not None and mth.is_property and mth.qual in rngfns:
                                 consumer = f"read of property {mth.short}"
+                        if not tys and e.attr in rng_props and not (isinstance(e.value, ast.Name) and e.value.id in ("np", "numpy", "torch")):
+                            # untyped receiver (a parameter such as `model`): the name belongs to RNG-consuming properties only
+                            consumer = f"read of property {rng_props[e.attr]} (receiver `{src(e.value)[:30]}` untyped; every in-package property of that name consumes randomness)"
                     if consumer is None:
                         continue
                     n_checked += 1
@@ -279,7 +288,9 @@ def mentions_taint(test, tainted):
 
 
 def all_taints(test, tainted):
-    return sorted({n.attr for n in ast.walk(test) if isinstance(n, ast.Attribute) and n.attr in tainted})
+    """Settings a test depends on: attributes named like a (derived) parallelisation setting, and plain names -
+    constructor / function parameters - named like one of the four settings themselves."""
+    return sorted({n.attr for n in ast.walk(test) if isinstance(n, ast.Attribute) and n.attr in tainted} | {n.id for n in ast.walk(test) if isinstance(n, ast.Name) and n.id in TAINT_SOURCES})
 
 
 def short_circuit_taints(root, target, tainted):
